@@ -1,9 +1,18 @@
 (** C19 correspondence interface: cases, observable outputs, spec predicate, model.
     Does not import any proof file. *)
-From Coq Require Import List Bool ZArith NArith.
+From Coq Require Import List Bool ZArith NArith Ascii.
+From Coq Require String.
 Import ListNotations.
-From Verif Require Export Common.ListX C19.Bencode C19.Spec.
+From Verif Require Export Common.ListX C19.Bencode C19.Edn C19.Json C19.Spec.
 Local Open Scope N_scope.
+
+(** compact literals for the case files: bytes as a hex string *)
+Definition hexval (a : ascii) : N := let n := N_of_ascii a in if n <? 58 then n - 48 else n - 87.
+Fixpoint hx (s : String.string) : list N :=
+  match s with
+  | String.String a (String.String b r) => (16 * hexval a + hexval b) :: hx r
+  | _ => []
+  end.
 
 Fixpoint bval_eqb (a b : bval) {struct a} : bool :=
   match a, b with
@@ -27,31 +36,134 @@ Fixpoint bval_eqb (a b : bval) {struct a} : bool :=
   | _, _ => false
   end.
 
+(** EDN values: maps and sets compared as unordered collections *)
+Definition ostr_eqb (a b : option str) : bool := option_eqb str_eqb a b.
+
+Fixpoint edn_eqb (a b : edn) {struct a} : bool :=
+  let all2 := fix all2 (x y : list edn) : bool :=
+                match x, y with
+                | [], [] => true
+                | a :: x', b :: y' => edn_eqb a b && all2 x' y'
+                | _, _ => false
+                end in
+  match a, b with
+  | ENil, ENil => true
+  | EBool x, EBool y => Bool.eqb x y
+  | EInt x, EInt y => Z.eqb x y
+  | EFloat x, EFloat y => str_eqb x y
+  | EStr x, EStr y => str_eqb x y
+  | EKw n1 s1, EKw n2 s2 => ostr_eqb n1 n2 && str_eqb s1 s2
+  | ESym n1 s1, ESym n2 s2 => ostr_eqb n1 n2 && str_eqb s1 s2
+  | EVec x, EVec y => all2 x y
+  | EList x, EList y => all2 x y
+  | ESet x, ESet y =>
+      Nat.eqb (length x) (length y) &&
+      (fix sub (x : list edn) : bool :=
+         match x with [] => true | a :: x' => existsb (edn_eqb a) y && sub x' end) x
+  | EMap x, EMap y =>
+      Nat.eqb (length x) (length y) &&
+      (fix sub (x : list (edn * edn)) : bool :=
+         match x with
+         | [] => true
+         | (k, v) :: x' => existsb (fun kv => edn_eqb k (fst kv) && edn_eqb v (snd kv)) y && sub x'
+         end) x
+  | _, _ => false
+  end.
+
+(** no map or set with two or more entries: the written text does not depend on hash order *)
+Fixpoint order_free (v : edn) : bool :=
+  match v with
+  | EVec l | EList l => forallb order_free l
+  | ESet l => (length l <=? 1)%nat && forallb order_free l
+  | EMap m => (length m <=? 1)%nat && forallb (fun kv => order_free (fst kv) && order_free (snd kv)) m
+  | _ => true
+  end.
+
+Definition jkey_eqb (a b : jkey) : bool :=
+  match a, b with
+  | JKStr x, JKStr y => str_eqb x y
+  | JKKw n1 s1, JKKw n2 s2 => ostr_eqb n1 n2 && str_eqb s1 s2
+  | JKSym n1 s1, JKSym n2 s2 => ostr_eqb n1 n2 && str_eqb s1 s2
+  | _, _ => false
+  end.
+
+Fixpoint jval_eqb (a b : jval) {struct a} : bool :=
+  let all2 := fix all2 (x y : list jval) : bool :=
+                match x, y with
+                | [], [] => true
+                | a :: x', b :: y' => jval_eqb a b && all2 x' y'
+                | _, _ => false
+                end in
+  match a, b with
+  | JNil, JNil => true
+  | JBool x, JBool y => Bool.eqb x y
+  | JInt x, JInt y => Z.eqb x y
+  | JFloat x, JFloat y => str_eqb x y
+  | JStr x, JStr y => str_eqb x y
+  | JKw n1 s1, JKw n2 s2 => ostr_eqb n1 n2 && str_eqb s1 s2
+  | JSym n1 s1, JSym n2 s2 => ostr_eqb n1 n2 && str_eqb s1 s2
+  | JVec x, JVec y => all2 x y
+  | JList x, JList y => all2 x y
+  | JSet x, JSet y => all2 x y
+  | JMap x, JMap y =>
+      Nat.eqb (length x) (length y) &&
+      (fix sub (x : list (jkey * jval)) : bool :=
+         match x with
+         | [] => true
+         | (k, v) :: x' => existsb (fun kv => jkey_eqb k (fst kv) && jval_eqb v (snd kv)) y && sub x'
+         end) x
+  | _, _ => false
+  end.
+
+Definition dialect_of (rd : N) : dialect := if rd =? 0 then Edn else Lisp.
+
+(** [py_float] in the correspondence run: the generated float tokens are chosen so that
+    repr(float(t)) = t for every digits/dot/minus prefix the readers can hand to float() *)
+Definition py_float_id (t : str) : option str := Some t.
+
 Inductive case :=
-| CBStream (msgs : list bval) (k : N)   (* encode each message, concatenate, keep the first k bytes, decode-all *)
+| CBStream (msgs : list bval)           (* encode each message, concatenate; for EVERY k in 0..length keep the
+                                           first k bytes and decode-all *)
 | CBRaw (data : bytes)                  (* decode-all on arbitrary (malformed) bytes *)
-| CBEnc (v : bval).                     (* encode alone *)
+| CBEnc (v : bval)                      (* encode alone *)
+| CEdn (rd : N) (v : edn)               (* edn/write-string, then read back: rd 0 edn/read-string, 1 core/read-string *)
+| CEdnText (rd : N) (text : str)        (* read an arbitrary text (validates the reader models) *)
+| CJson (v : jval).                     (* json/write-str then json/read-str *)
 
 Inductive out :=
 | OBAll (items : list bval) (rest : bytes)   (* [values* incomplete*]; dict entries sorted by key, nil rest = [] *)
+| OBCuts (l : list (list bval * bytes))      (* the same, one entry per cut point 0..length *)
 | OBytes (b : bytes)
+| OEdn (text : str) (back : edn)             (* written text ([] when it depends on hash order), value read back *)
+| OEdnErr (text : str) (cls : N)             (* the reader raised: 1 its own syntax error class, 2 another class;
+                                                from the model also 7 = outside the model *)
+| OJson (back : jval)
 | OErr (cls : N).                            (* an exception escaped (1), timeout/hang (3), harness trouble (2), model out of fuel (9) *)
 
 Definition out_eqb (a b : out) : bool :=
   match a, b with
   | OBAll i1 r1, OBAll i2 r2 => list_eqb bval_eqb i1 i2 && str_eqb r1 r2
+  | OBCuts x, OBCuts y => list_eqb (fun a b => list_eqb bval_eqb (fst a) (fst b) && str_eqb (snd a) (snd b)) x y
   | OBytes x, OBytes y => str_eqb x y
+  | OEdnErr _ 7, (OEdn _ _ | OEdnErr _ _) => true       (* the model does not claim to know *)
+  | OEdn t1 b1, OEdn t2 b2 => str_eqb t1 t2 && edn_eqb b1 b2
+  | OEdnErr t1 c1, OEdnErr t2 c2 => str_eqb t1 t2 && N.eqb c1 c2
+  | OJson x, OJson y => jval_eqb x y
   | OErr x, OErr y => N.eqb x y
   | _, _ => false
   end.
 
 Definition spec_ok (c : case) (o : out) : bool :=
   match c, o with
-  | CBStream msgs k, OBAll items rest =>
+  | CBStream msgs, OBCuts l =>
       forallb wf msgs &&
-      (let s := split_stream msgs (N.to_nat k) in list_eqb bval_eqb (fst s) items && str_eqb (snd s) rest)
+      list_eqb (fun a b => list_eqb bval_eqb (fst a) (fst b) && str_eqb (snd a) (snd b))
+               (map (split_stream msgs) (seq 0 (S (length (concat (map ref_encode msgs)))))) l
   | CBRaw _, OBAll _ _ => true            (* arbitrary bytes: decode-all must answer, nothing more is prescribed *)
   | CBEnc v, OBytes b => wf v && str_eqb (ref_encode v) b
+  | CEdn _ v, OEdn _ back => edn_eqb v back          (* reads back as an equal value of the same type *)
+  | CEdnText _ _, (OEdn _ _ | OEdnErr _ _) => true   (* arbitrary text: nothing prescribed beyond answering *)
+  | CJson v, OJson back => jkeys_distinct v && jval_eqb (coerce v) back
   | _, _ => false
   end.
 
@@ -61,9 +173,36 @@ Definition run_decode_all (data : bytes) : out :=
   | None => OErr 9
   end.
 
+Fixpoint all_some {A} (l : list (option A)) : option (list A) :=
+  match l with
+  | [] => Some []
+  | None :: _ => None
+  | Some x :: t => option_map (cons x) (all_some t)
+  end.
+
 Definition model (c : case) : out :=
   match c with
-  | CBStream msgs k => run_decode_all (firstn (N.to_nat k) (concat (map encode msgs)))
+  | CBStream msgs =>
+      let data := concat (map encode msgs) in
+      match all_some (map (fun k => decode_all (firstn k data)) (seq 0 (S (length data)))) with
+      | Some l => OBCuts l
+      | None => OErr 9
+      end
   | CBRaw data => run_decode_all data
   | CBEnc v => OBytes (encode v)
+  | CEdn rd v =>
+      let text := write v in
+      let shown := if order_free v then text else [] in
+      match read_string py_float_id (dialect_of rd) text with
+      | ROk b => OEdn shown b
+      | RErr e => OEdnErr shown e
+      | RFuel => OErr 9
+      end
+  | CEdnText rd text =>
+      match read_string py_float_id (dialect_of rd) text with
+      | ROk b => OEdn [] b
+      | RErr e => OEdnErr [] e
+      | RFuel => OErr 9
+      end
+  | CJson v => OJson (from_py (to_py v))
   end.
